@@ -29,6 +29,12 @@ def proj_route_c02(i, m):
     return [i[0], i[1], i[2], len(i[3])], [m[0], m[1], m[2], len(m[3])]
 
 
+def proj_perm(i, m):
+    # per build the answer of Dispatch (7 fields); the 8th field of the implementation's (the same through ServeHTTP) is
+    # compared across the builds by the specification predicate, not with the model
+    return [b[:7] for b in i], m
+
+
 def proj_route_c04(i, m):
     return [i[3], i[4]], [m[3], m[4]]
 
@@ -93,7 +99,7 @@ PROPS = {
     'C03': dict(
         domains=[dict(name='perm', quick=16000, thorough=400000)],
         verdicts=['c03_*'],
-        project={'perm': proj_allow},
+        project={'perm': proj_perm},
         prop_files=['props/C03.v'],
         trivial_classes=('404',),
         rule='tables with distinct (method, template) pairs (all token forms and the plain fragment, both routers) built in the '
@@ -141,7 +147,7 @@ PROPS = {
         project={'allow': proj_allow},
         prop_files=['props/C17.v'],
         trivial_classes=('404',),
-        rule='tables of the common fragment (literal and plain-variable segments, nested literal roots, no conditions), both '
+        rule='tables of the common fragment (literal and plain-variable segments, nested literal roots; 15% with If-conditions on some routes), both '
              'routers; per case one URL probed with every method of the universe (method pool + table methods) on a plain '
              'container, plus an OPTIONS request on a twin with the OPTIONS filter; distinct = distinct case text; '
              'non-trivial = at least one method is routable at the URL',
@@ -332,7 +338,7 @@ PROPS.update({
                     'with watchdog, ledger and decoded bodies (also under the race detector).',
     ),
     'C12': dict(
-        domains=[dict(name='mut', quick=96, thorough=3000)],
+        domains=[dict(name='mut', quick=96, thorough=3000), dict(name='disp', quick=4000, thorough=100000)],
         race_domains=[dict(name='mut', quick=32, thorough=1000)],
         verdicts=['c12_*'],
         project={'mut': proj_allow},
@@ -343,7 +349,8 @@ PROPS.update({
              'service, a service with dynamic routes whose one route is added and removed in a loop by a mutator goroutine, and '
              'a service that a second mutator adds and removes in a loop, while 2-8 serving goroutines send 200-1000 requests '
              'each; every answer classified (untouched targets: the one legal answer; targets under change: one of the two); 20 s '
-             'watchdog; the same under the race detector; distinct = distinct case text; every case is non-trivial',
+             'watchdog; the same under the race detector; domain disp (see C10): after each generated history of requests '
+             'Container.Add is called under a watchdog; distinct = distinct case text; every case is non-trivial',
         trusted_base=['the translator harness/cmd/xlate (lock operations and shared-field accesses of the listed entry points, calls '
                       'inlined, deferred unlocks at function end; premise dynamicRoutes = true)',
                       'Go memory model, sync.RWMutex, the race detector (no false positives)'],
